@@ -54,7 +54,7 @@ var c16Deviations = map[string]struct{ hash, why string }{
 	"Scanner.tokSEMICOLON":   {"0beba1d0", "returns token.SEMICOLON and resets the XGo-only paren depth"},
 }
 
-const c16ScanResidual = "de58fec0"
+const c16ScanResidual = "bf96ef23"
 
 func runC16(c *core.Check) {
 	prog := c.Load("./scanner", "go/scanner")
